@@ -186,7 +186,8 @@ package mqtt
 //@   requires dialer != nil
 //@   requires forall(0, len(opts), func(i int) bool { return opts[i] != nil })
 //@   assigns nothing
-//@   loop 1 invariant options != nil
+//@   loop 1 invariant options != nil && (rangeindex < 0 ==> options.ReconnectWaitBase == time.Second && options.ReconnectWaitMax == 10*time.Second &&
+//@        options.RetryClient != nil && fresh(options.RetryClient) && options.Timeout == 0 && options.PingInterval == 0 && !options.AlwaysResubscribe)
 //@   ensures[C09] option_error: result1 != nil ==> result0 == nil
 //@   ensures[C09] built: result1 == nil ==> asReconn(result0) != nil && fresh(asReconn(result0)) && asReconn(result0).dialer == dialer &&
 //@        asReconn(result0).done != nil && fresh(asReconn(result0).done) && !closed(asReconn(result0).done) &&
